@@ -1454,7 +1454,7 @@ pub fn run(tier: Tier) -> ! {
     let hangs = AtomicUsize::new(0);
     let slows = AtomicUsize::new(0);
     let skipped = AtomicU64::new(0);
-    let deadline = Instant::now() + Duration::from_secs(tier.pick(150, 3000));
+    let deadline = Instant::now() + Duration::from_secs(crate::ctx::budget_secs(tier.pick(150, 3000)));
 
     let workers = par::for_each_index(
         total,
